@@ -748,7 +748,9 @@ def build_gsc(d: dict, ctx: Ctx):
         return SingularProblemEvalLimitReached(d["n"])
     if k == "fevals":
         w = d.get("w", "equal")
-        if w == "equal":
+        if d.get("w_spelling") == "str" and w in ("equal", "root"):
+            pass  # the plain string, as the docstring spells the strategies
+        elif w == "equal":
             w = WeightingStrategy.EQUAL
         elif w == "root":
             w = WeightingStrategy.ROOT
